@@ -2029,7 +2029,7 @@ func (interp *Interpreter) cfg(root *node, sc *scope, importPath, pkgName string
 			n.tnext = nil
 			n.val = sc.def
 			for i, c := range n.child {
-				if c.findex != i || c.level != 0 || c.rval.IsValid() || c.kind != binaryExpr && c.kind != unaryExpr && !isRegularCall(c) {
+				if c.findex != i || c.level != 0 || c.rval.IsValid() || c.kind != binaryExpr && c.kind != unaryExpr && !isCall(c) {
 					continue
 				}
 				// The operand is computed directly in the location of result i. If another operand
